@@ -134,12 +134,47 @@ def short(p):
     return s
 
 
+def _qualified_parts(p):
+    """`[crate::]<Type as Trait>::name[::{closure#n}]` -> (type, trait, rest) or None"""
+    i = p.find('<')
+    if i < 0 or ' as ' not in p:
+        return None
+    depth = 0
+    j = i
+    while j < len(p):
+        ch = p[j]
+        if ch == '<':
+            depth += 1
+        elif ch == '>' and p[j - 1] != '-':
+            depth -= 1
+            if depth == 0:
+                break
+        j += 1
+    inner = p[i + 1:j]
+    parts = _split_top(inner, ' as ')
+    if len(parts) < 2:
+        return None
+    rest = p[j + 1:]
+    if rest.startswith('::'):
+        rest = rest[2:]
+    return parts[0].strip(), parts[1].strip(), rest
+
+
+@lru_cache(maxsize=None)
 def path_matches(path, pat):
     """pattern match used by every rule: exact canonical path, canonical suffix at a `::`
-    boundary, or the short key."""
+    boundary, or the short key; `<mod::Type as Trait>::name` patterns compare the type as a suffix."""
     if not path:
         return False
     c = canon(path)
+    if pat.startswith('<') and ' as ' in pat:
+        pp = _qualified_parts(pat)
+        cp = _qualified_parts(c)
+        if pp and cp:
+            ty_ok = cp[0] == pp[0] or cp[0].endswith('::' + pp[0]) or _last_ident(cp[0]) == pp[0]
+            tr_ok = _last_ident(cp[1]) == _last_ident(pp[1])
+            return ty_ok and tr_ok and cp[2] == pp[2]
+        return short(path) == pat
     if c == pat or c.endswith('::' + pat):
         return True
     if short(path) == pat:
@@ -564,7 +599,7 @@ class Facts:
 
     def code_bodies(self, crate=None):
         for b in self.bodies.values():
-            if b.kind == 'const':
+            if b.kind in ('const', 'promoted'):
                 continue
             if crate and b.crate != crate:
                 continue
